@@ -4,7 +4,7 @@
    with a row pitch; `block_image` for block formats.  The implementation is compared with
    blit(prefill, crop(rect, map chmap (native full decode))) for all 73 formats (harness tag 5). *)
 From Coq Require Import ZArith List Bool Lia.
-From DDSV Require Import model.Crop proofs.CropProofs.
+From DDSV Require Import base.Machine model.Layout model.DecodeScript model.Crop proofs.CropProofs.
 Import ListNotations.
 Local Open Scope Z_scope.
 
@@ -47,9 +47,21 @@ Theorem C05_block_pixel_local : forall bw bh dec bpb w h d1 d2 x y, (x < w)%nat 
   px_at (block_image bw bh dec bpb w h d1) x y = px_at (block_image bw bh dec bpb w h d2) x y.
 Proof. exact block_pixel_local. Qed.
 
+(* the block rows a rect decode reads (the effect script of C06) are exactly the block rows that hold the rectangle:
+   every pixel row of the rectangle lies in one of them, and each of them holds at least one *)
+Theorem C05_block_rect_script_rows : forall bpb bw bh W H ox oy w h,
+  script_rect (Block bpb bw bh) W H ox oy w h =
+  let bpl := (div_ceil W bw * bpb)%N in let before := (oy / bh)%N in let to_read := (div_ceil (h + oy) bh - before)%N in
+  [EAlloc (line_buffer_len bpl to_read); ESkip (bpl * before); ERead (bpl * to_read); ESkip (bpl * (div_ceil H bh - before - to_read))].
+Proof. exact block_rect_script_rows. Qed.
+Theorem C05_rect_block_rows_cover : forall oy h bh y, (1 <= bh -> 1 <= h -> oy <= y < oy + h -> oy / bh <= y / bh < dceil (oy + h) bh)%N.
+Proof. exact rect_block_rows_cover. Qed.
+Theorem C05_rect_block_rows_minimal : forall oy h bh k, (1 <= bh -> 1 <= h -> oy / bh <= k < dceil (oy + h) bh -> exists y, oy <= y < oy + h /\ y / bh = k)%N.
+Proof. exact rect_block_rows_minimal. Qed.
+
 Example C05_ex : blit [9; 9; 9; 9; 9; 9; 9; 9] 1 3 (crop 1 0 1 2 (map_px (chmap [255] [0] 0 2) [[[[1]]; [[2]]]; [[[3]]; [[4]]]])) = [9; 2; 2; 2; 4; 4; 4; 9].
 Proof. reflexivity. Qed.
 
 Definition C05_all := (C05_chmap_via_rgba, C05_chmap_id, C05_chmap_length, C05_crop_pixel, C05_crop_crop, C05_crop_map_px,
-  C05_blit_outside, C05_blit_covered, C05_block_pixel_local).
+  C05_blit_outside, C05_blit_covered, C05_block_pixel_local, C05_block_rect_script_rows, C05_rect_block_rows_cover, C05_rect_block_rows_minimal).
 Redirect "props/C05.assumptions" Print Assumptions C05_all.
